@@ -60,7 +60,8 @@ def expected_open(content, magic):
     ni = (not magic_ok) or version == 0 or generation == 0
     mf = size < 72
     if ni and mf:
-        return {NI, MF}, "both"
+        # clockbound.h: MALFORMED means "initialized but malformed"; a segment that is not initialised is NOT_INITIALIZED
+        return {NI}, "both"
     if ni:
         return {NI}, "not-initialised"
     if mf:
